@@ -15,6 +15,7 @@ import PV.Model.Fold
 import PV.Model.B64filter
 import PV.Model.Tools
 import PV.Model.Reader
+import PV.Model.ReaderFallback
 import PV.Model.Io
 import PV.Model.Flatten
 import PV.Model.Warc
@@ -365,6 +366,10 @@ def reader (op : String) (args : List String) : String :=
       let cap0 := page * max (mb / page + 1) 2
       let stripCr := strip == "1" || how == "2"          -- LineIterator always strips
       let res := if backing == "file" then PV.Reader.recordsMmap dl stripCr data page cap0 st
+                 else if backing.startsWith "filenommap" then
+                   -- "filenommap:<k>": k mmap calls succeed, then the file is read with read(2)
+                   let k := ((backing.splitOn ":").getD 1 "0").toNat?.getD 0
+                   PV.Reader.recordsFallback dl stripCr data page cap0 st k sc
                  else PV.Reader.recordsRead dl stripCr cap0 data sc
       match res with
       | some ls => recsStr ls
